@@ -424,7 +424,7 @@ def build_recipes():
                                                           density_params=_own(c, dict(mode='scatter', xscale=sc, yscale='logicle', sigma=1.0,
                                                                                       bins=_own(c, [16, 16]))),
                                                           hist_channels=_own(c, ['FL1-H', 'FL2-H']),
-                                                          hist_params=_own(c, [dict(xscale=sc, bins=16), dict(xscale='linear', bins=16)])))
+                                                          hist_params=_own(c, [dict(xscale=sc, bins=16, facecolor='c'), dict(xscale='linear', bins=16)])))
             add('plot.density_and_hist', rec_dh)
         for kind in ('rfi', 'float'):
             add('plot.violin', lambda c, sc=scale, k=kind: (fplot.violin, [_own(c, [c.sample(k), c.sample(k)])],
